@@ -434,6 +434,37 @@ func (n *node) close() {
 	}
 }
 
+// shutdownEngine = the first two steps of lindb's databaseLifecycle.Shutdown: stop the log replicators,
+// close the engine (every database flushes and closes).
+func (n *node) shutdownEngine() error {
+	if n.mgr != nil {
+		n.mgr.Stop()
+	}
+	n.eng.Close()
+	return nil
+}
+
+// finishShutdown = its last step (close the write-ahead logs); the node is gone afterwards.
+func (n *node) finishShutdown() {
+	n.closed = true
+	n.midFlush, n.postAck = nil, nil
+	done := make(chan struct{})
+	go func() {
+		defer close(done)
+		defer func() { _ = recover() }()
+		if n.mgr != nil {
+			_ = n.mgr.Close()
+		}
+		if n.cancel != nil {
+			n.cancel()
+		}
+	}()
+	select {
+	case <-done:
+	case <-time.After(20 * time.Second):
+	}
+}
+
 // ---------------------------------------------------------------- positions
 
 type positions struct {
